@@ -165,9 +165,26 @@ Definition parse_addr_ok (s : bytes) : bool :=
 (* `_, err := netip.ParseAddr(h); err == nil` *)
 Definition is_ip_literal (h : bytes) : bool := parse_addr_ok h.
 
-(* redirect.go getDomain (repaired): IP literals whole; DNS names drop the first label
-   when there are at least three *)
+(* strings.TrimSuffix(s, string(c)) *)
+Definition trim_suffix_byte (c : byte) (s : bytes) : bytes :=
+  match rev s with
+  | b :: r => if beqb b c then rev r else s
+  | [] => s
+  end.
+
+(* redirect.go getDomain (repaired twice: a69a273 IP literals whole; round 7: the dot that ends a
+   fully qualified name is not a label): DNS names drop the first label when there are at least three *)
 Definition get_domain (host : bytes) : bytes :=
+  let h := get_hostname host in
+  if is_ip_literal h then h
+  else let h := trim_suffix_byte dot h in
+       match split_byte dot h with
+       | _ :: ((_ :: _ :: _) as rest) => join_with [dot] rest
+       | _ => h
+       end.
+
+(* getDomain before the round-7 repair: "example.com." -> "com." *)
+Definition get_domain_dotted (host : bytes) : bytes :=
   let h := get_hostname host in
   if is_ip_literal h then h
   else match split_byte dot h with
